@@ -19,6 +19,12 @@ func TestReplay(t *testing.T) {
 	switch f.Test {
 	case "TestC15":
 		key, msg = replayC15(f.Script)
+	case "TestC05":
+		key, msg = replayScenario(f.Script, judgeC05)
+	case "TestC10":
+		key, msg = replayScenario(f.Script, judgeC10)
+	case "TestC11Hub":
+		key, msg = replayScenario(f.Script, judgeC11b)
 	default:
 		t.Fatalf("no replay handler for %s", f.Test)
 	}
